@@ -149,6 +149,10 @@ func ebnfRun(args []string) error {
 			real["tree"] = prods
 			tree2, err := ebnf.ParseString(tree.String())
 			real["roundtrip"] = err == nil && reflect.DeepEqual(stripPos(tree), stripPos(tree2))
+			// "yields an equal tree": the trees as the package delivers them, with every field they have
+			if err == nil && !reflect.DeepEqual(tree, tree2) {
+				real["roundtrip"] = false
+			}
 		}()
 		select {
 		case <-done:
